@@ -643,6 +643,10 @@ func c16(c *h.Ctx) {
 							confirmed = false
 						}
 					}
+					if strings.Contains(base[k]+results[other][k]+strings.Join(again, ""), "too many open files") {
+						c.Inconclusive(fmt.Sprintf("case %d: the machine ran out of file descriptors / inotify instances while comparing %s", i, k))
+						continue
+					}
 					if !confirmed {
 						c.Count("differences_not_seen_again", 1)
 						c.Inconclusive(fmt.Sprintf("case %d: %s differed once between YAML and %s and agreed when repeated (not counted as a format difference):\n--- yaml\n%s\n--- %s\n%s\n%s", i, k, other[1:], clip(base[k], 600), other[1:], clip(results[other][k], 600), strings.Join(again, "\n")))
